@@ -17,6 +17,16 @@ def handle (toks : List String) : String :=
     | some off, some w, some s =>
       if !(pre s.length off w) then "bad-pre" else
       let panics := mode == "dbg" && dbgPanics off w
+      if mode == "be" then
+        -- big-endian branches (the host word is 64 bits, so the const forms coincide)
+        if entry.startsWith "get" || entry.startsWith "raw_get" then
+          hexNat 16 (getBE s off w).toNat ++ " " ++ hexNat 16 (specGetBE s off w).toNat
+        else match rest with
+          | [v] => match parseHexNat v with
+            | some v => hexBytes (setBE s off w (BitVec.ofNat 64 v)) ++ " " ++ hexBytes (specSetBE s off w (BitVec.ofNat 64 v))
+            | none => "bad-op"
+          | _ => "bad-op"
+      else
       if entry == "get" || entry == "raw_get" then
         (if panics then "panic" else hexNat 16 (get s off w).toNat) ++ " " ++ hexNat 16 (specGet s off w).toNat
       else if entry == "get_const" || entry == "raw_get_const" then
